@@ -83,6 +83,23 @@ def discharge(ob: Obligation, timeout_ms: int = QUICK_MS, use_cvc5: bool = True)
                 else:
                     ob.verdict = "unknown"
                     ob.note = "cvc5 says sat, z3 gives no model"
+    if ob.verdict == "unknown" and "quantifier" in (ob.note or ""):
+        # quantified VC (symbolic texts): z3 cannot build a model of the general query.  Look for a counterexample among SMALL inputs
+        # (every integer input narrowed to a small range: a model of the narrowed query is a model of the query); proofs are unaffected.
+        for bound in (2, 6):
+            s2 = z3.Solver()
+            s2.set("timeout", timeout_ms)
+            for h in ob.hyps:
+                s2.add(h)
+            s2.add(z3.Not(goal))
+            for name, sym in ob.symbols.items():
+                if z3.is_int(sym) and not z3.is_array(sym) and ("len" in name or "gap" in name or "indent" in name or "blank" in name or "spaces" in name or "trailing" in name or "comment" in name):
+                    s2.add(sym >= 0, sym <= bound)
+            if s2.check() == z3.sat:
+                ob.verdict = "refuted"
+                ob.model = s2.model()
+                ob.note = f"counterexample found among small inputs (run lengths <= {bound}); the general query was undecided"
+                break
     ob.ms = (time.time() - t0) * 1000
     return ob
 
